@@ -100,8 +100,8 @@ def runs(tier):
     q = tier == 'quick'
     base = dict(MaxD=3, Sizes={2, 3}, NSingle={0, 2} if q else {0, 1, 2}, NTwo={1, 3} if q else {1, 2, 3},
                 Seeds={1, 2} if q else {1, 2, 3, 4}, ExhaustiveD2=True,
-                UlamGrids={(2, 2), (2, 3), (3, 2), (2, 2, 2), (3, 2, 2), (17, 2, 18), (17, 16)} if q else
-                {(2, 2), (2, 3), (3, 2), (3, 3), (2, 2, 2), (3, 2, 2), (2, 3, 2), (2, 2, 3), (17, 2, 18), (17, 16), (19, 3, 17)},
+                UlamGrids={(2, 2), (2, 3), (3, 2), (2, 2, 2), (3, 2, 2), (17, 2, 18), (17, 16), (3, 1), (1, 3), (2, 1, 3), (3, 2, 1), (1, 2, 2)} if q else
+                {(2, 2), (2, 3), (3, 2), (3, 3), (2, 2, 2), (3, 2, 2), (2, 3, 2), (2, 2, 3), (17, 2, 18), (17, 16), (19, 3, 17), (3, 1), (1, 3), (4, 1), (2, 1, 3), (3, 2, 1), (1, 2, 2), (1, 1, 3)},
                 UlamN={1, 5, 9} if q else {1, 3, 5, 9, 14})
     out = [dict(name='slim', module='Slim', constants=base, invariants=['ColumnSumsZero', 'OffDiagNonNeg', 'UlamTotal'])]
     # order 4 (two interior cores: pass-through blocks of cyclic chains next to each other)
